@@ -50,6 +50,12 @@ def gen_script(rng, tier, big):
         L.append('RD %s' % key)
         if meta != '-':
             L.append('RW %s %s' % (key, meta))
+    # the blob must also survive index regeneration untouched (scan over what was really written)
+    if rng.random() < 0.6:
+        L += ['close', 'rmindex 0', 'open']
+        for (key, meta, ln, seed, doff) in recs:
+            L.append('R %s' % key)
+        L.append('counts')
     # damage one record's data
     cands = [r for r in recs if r[2] > 0]
     if cands:
@@ -119,7 +125,7 @@ def oracle(lines, io, spec=None):
         if l.startswith('flip'):
             cut = i
             break
-    fails += C.spec_oracle(lines[:cut], io[:cut], spec[:cut] if spec else None, ('R', 'RW', 'RD'))
+    fails += C.spec_oracle(lines[:cut], io[:cut], spec[:cut] if spec else None, ('R', 'RW', 'RD', 'counts'))
     return fails
 
 
